@@ -14,6 +14,10 @@ MCRules2 == [A |-> [thr |-> 0, items |-> [c |-> 1]],
              B |-> [thr |-> 1, items |-> [a |-> 2]]]
 MCRes1   == {"A"}
 MCRules3 == [A |-> [thr |-> 2, items |-> [a |-> 1]]]
+\* instances for the concurrent admission path (K >= 1): one resource, two values
+MCValues2 == {"a", "b"}
+MCRules4 == [A |-> [thr |-> 2, items |-> [a |-> 1]]]       \* (same table as MCRules3, over MCValues2)
+MCRules5 == [A |-> [thr |-> 1, items |-> [b |-> 3]]]
 
 Emit == PrintT(ToJson(h'))
 =============================================================================
